@@ -394,6 +394,9 @@ pub mod parse;
 pub mod print;
 pub mod value;
 
+#[cfg(lexpr_verif)]
+pub mod verif;
+
 #[doc(inline)]
 pub use self::parse::{
     from_reader, from_reader_custom, from_slice, from_slice_custom, from_str, from_str_custom,
